@@ -16,7 +16,15 @@
      the context after the `]` may be a filter bar: `-xs[1]|abs` is `(-(xs[1]))|abs`), `C08_prefix_without_subscript`;
   4. `C08_lex_spacing`     spelling tokens with any whitespace that keeps fusing neighbours apart lexes back;
      `C08_source_roundtrip` bytes → tokens → tree for the printed forms;
-  5. `C08_arith_exact`, `C08_div_mod_zero`, `C08_short_circuit_*`, `C08_cond_one_branch`.
+  5. `C08_arith_exact`, `C08_div_mod_zero`, `C08_short_circuit_*`, `C08_cond_one_branch`;
+  6. string literals (after the repair of `TokenizeExpression`: a quote is escaped iff an ODD number of backslashes
+     precedes it, Go's `escapedAt`): `C08_literal_ends_at_first_unescaped_quote` (ANY bytes after an opening quote:
+     the literal ends at the first quote of its kind that is not escaped, or the rest is dropped),
+     `C08_literal_end_is_first_quote_not_escapedAt` (that index in the words of the Go helper),
+     `C08_quote_after_escaped_backslash_closes` (ALL byte strings `v`, both quote kinds, every admissible class of
+     escaped bytes: the literal written from `v` lexes to one STRING token whose `processEscapeSequences` is `v`, and
+     lexing continues behind it), `C08_string_literal_round_trip` (… and parses to the constant `v`),
+     `C08_escaped_literal_operand`, `C08_escaped_literals_around_operator`, `C08_escape_classes`.
 
   Fragment of item 3 (decidable predicate `WfE`): binary operators (all twenty), prefix operators
   (`not`, `-`, `+`), tests without arguments (`x is name`; `x is not name` as an admissible spelling of
@@ -503,6 +511,261 @@ theorem C08_cond_one_branch (E : Env) (st st1 : St) (c t f : Expr) (cv : Val) (c
 
 /-! ## 6. Non-vacuity: concrete instances of every hypothesis set (tests, not theorems) -/
 
+/-! ## 6. String literals: a quote is escaped iff an ODD number of backslashes precedes it -/
+
+/-- Go's `escapedAt(s, i)`: the number of consecutive backslashes that end just before position `i` is odd. -/
+def escapedAt (s : Bytes) (i : Nat) : Bool :=
+  ((s.take i).reverse.takeWhile (· == 92)).length % 2 == 1
+
+/-- where a literal opened by `q` ends: the index of the first `q` that is not escaped (`esc`: is the head escaped?) -/
+def litEnd (q : UInt8) : Bool → Bytes → Option Nat
+  | _, [] => none
+  | esc, c :: r => if c == q && !esc then some 0 else (litEnd q (c == 92 && !esc) r).map (· + 1)
+
+/-- spelling of a value as the body of a literal: a backslash in front of every byte of the class `P` -/
+def escapeWith (P : UInt8 → Bool) : Bytes → Bytes
+  | [] => []
+  | c :: r => if P c then 92 :: c :: escapeWith P r else c :: escapeWith P r
+
+/-- the least one may escape inside `q … q` -/
+def escapeBytes (q : UInt8) : Bytes → Bytes := escapeWith (fun c => c == 92 || c == q)
+
+/-- admissible classes: the backslash and the delimiter are escaped; `n`, `r`, `t` are not (`\n` is a newline) -/
+def EscClass (q : UInt8) (P : UInt8 → Bool) : Prop :=
+  P 92 = true ∧ P q = true ∧ P 110 = false ∧ P 114 = false ∧ P 116 = false
+
+theorem closeCond (q : UInt8) (hq : q = 34 ∨ q = 39) (c : UInt8) (esc : Bool) :
+    (((c == 34 || c == 39) && !esc) && c == q) = (c == q && !esc) := by
+  rcases hq with rfl | rfl <;> cases (c == 34) <;> cases (c == 39) <;> cases esc <;> rfl
+
+theorem lexStr_litEnd (q : UInt8) (hq : q = 34 ∨ q = 39) :
+    ∀ (s acc : Bytes) (esc : Bool) (fuel : Nat), s.length ≤ fuel →
+      lexAux fuel (.str q acc) esc s =
+        match litEnd q esc s with
+        | some n => tk STRING (acc.reverse ++ s.take n) :: lexAux (fuel - (n + 1)) .code false (s.drop (n + 1))
+        | none => []
+  | [], acc, esc, fuel, _ => by cases fuel <;> simp [lexAux, litEnd]
+  | c :: r, acc, esc, fuel, hf => by
+    obtain ⟨g, rfl⟩ : ∃ g, fuel = g + 1 := ⟨fuel - 1, by simp at hf; omega⟩
+    have ih := lexStr_litEnd q hq r (c :: acc) (c == 92 && !esc) g (by simpa using hf)
+    rw [lexAux.eq_def]
+    simp only [litEnd, closeCond q hq]
+    by_cases h : (c == q && !esc) = true
+    · have hc : c = q := by simp at h; exact h.1
+      have h92 : (c == 92) = false := by
+        subst hc; rcases hq with rfl | rfl <;> decide
+      simp [h, h92]
+    · simp only [h, Bool.false_eq_true, if_false]
+      rw [ih]
+      cases litEnd q (c == 92 && !esc) r with
+      | none => simp
+      | some m => simp [Nat.add_sub_add_right]
+
+theorem litEnd_lt (q : UInt8) : ∀ (s : Bytes) (esc : Bool) (n : Nat), litEnd q esc s = some n →
+    n < s.length ∧ s[n]? = some q
+  | [], _, _, h => by simp [litEnd] at h
+  | c :: r, esc, n, h => by
+    simp only [litEnd] at h
+    split at h
+    · rename_i hc
+      cases h
+      simp only [Bool.and_eq_true, beq_iff_eq] at hc
+      simp [hc.1]
+    · cases hl : litEnd q (c == 92 && !esc) r with
+      | none => simp [hl] at h
+      | some m =>
+        simp [hl] at h
+        subst h
+        have := litEnd_lt q r _ m hl
+        refine ⟨by simp; exact this.1, ?_⟩
+        rw [List.getElem?_cons_succ]; exact this.2
+
+/-- A literal ends at the first quote of its own kind that is not escaped, whatever precedes and follows it inside
+    the literal; the token carries the bytes in between, lexing goes on behind the quote (which escapes nothing).
+    Without such a quote the rest of the expression is dropped (Go: the unterminated literal yields no token). -/
+theorem C08_literal_ends_at_first_unescaped_quote (q : UInt8) (hq : q = 34 ∨ q = 39) (s : Bytes) :
+    lexExpr (q :: s) =
+      match litEnd q false s with
+      | some n => tk STRING (s.take n) :: lexExpr (s.drop (n + 1))
+      | none => [] := by
+  have h92 : (q == 92) = false := by rcases hq with rfl | rfl <;> decide
+  have hqq : (q == 34 || q == 39) = true := by rcases hq with rfl | rfl <;> decide
+  have h := lexStr_litEnd q hq s [] false (s.length + 1) (by omega)
+  simp only [lexExpr, List.length_cons]
+  rw [lexAux.eq_def]
+  simp only [hqq, h92, Bool.not_false, Bool.and_true, if_true]
+  rw [h]
+  cases hl : litEnd q false s with
+  | none => rfl
+  | some n =>
+    have := (litEnd_lt q s false n hl).1
+    simp only [List.reverse_nil, List.nil_append, List.length_drop]
+    rw [show s.length + 1 - (n + 1) = s.length - (n + 1) + 1 by omega]
+
+theorem litEnd_escapeWith (q : UInt8) (P : UInt8 → Bool) (hq : (q == 92) = false) (h92 : P 92 = true) (hPq : P q = true)
+    (next : Bytes) : ∀ v : Bytes, litEnd q false (escapeWith P v ++ q :: next) = some (escapeWith P v).length
+  | [] => by simp [escapeWith, litEnd]
+  | c :: v => by
+    have ih := litEnd_escapeWith q P hq h92 hPq next v
+    have hq' : ((92 : UInt8) == q) = false := by
+      rw [Bool.eq_false_iff] at hq ⊢; intro h; apply hq; simp at h ⊢; exact h.symm
+    simp only [escapeWith]
+    by_cases hP : P c = true
+    · simp [hP, litEnd, hq', ih]
+    · have hP' : P c = false := by simpa using hP
+      have hcq : (c == q) = false := by
+        rw [Bool.eq_false_iff]; intro h; simp at h; subst h; simp [hPq] at hP'
+      have hc92 : (c == 92) = false := by
+        rw [Bool.eq_false_iff]; intro h; simp at h; subst h; simp [h92] at hP'
+      simp [hP', litEnd, hcq, hc92, ih]
+
+theorem unescape_escapeWith (P : UInt8 → Bool) (h92 : P 92 = true)
+    (hn : P 110 = false) (hr : P 114 = false) (ht : P 116 = false) :
+    ∀ v : Bytes, unescapeStr (escapeWith P v) = v
+  | [] => by simp [escapeWith, unescapeStr]
+  | c :: v => by
+    have ih := unescape_escapeWith P h92 hn hr ht v
+    simp only [escapeWith]
+    by_cases hP : P c = true
+    · have h1 : (c == 110) = false := by
+        rw [Bool.eq_false_iff]; intro h; simp at h; subst h; simp [hn] at hP
+      have h2 : (c == 114) = false := by
+        rw [Bool.eq_false_iff]; intro h; simp at h; subst h; simp [hr] at hP
+      have h3 : (c == 116) = false := by
+        rw [Bool.eq_false_iff]; intro h; simp at h; subst h; simp [ht] at hP
+      simp [hP, unescapeStr, h1, h2, h3, ih]
+    · have hP' : P c = false := by simpa using hP
+      have hc92 : c ≠ 92 := by intro h; subst h; simp [h92] at hP'
+      simp only [hP', Bool.false_eq_true, if_false]
+      rw [unescapeStr.eq_def]
+      split
+      · rename_i heq; simp at heq; exact absurd heq.1 hc92
+      · rename_i heq; simp at heq; rw [← heq.1, ← heq.2, ih]
+      · rename_i heq; simp at heq
+
+/-- the lexer's state after the bytes `l`, started in state `esc`: "the next byte is escaped" -/
+def escAfter (esc : Bool) (l : Bytes) : Bool := l.foldl (fun e c => c == 92 && !e) esc
+
+theorem escAfter_rev : ∀ r : Bytes, escAfter false r.reverse = ((r.takeWhile (· == 92)).length % 2 == 1)
+  | [] => by simp [escAfter]
+  | c :: r => by
+    have ih := escAfter_rev r
+    simp only [escAfter] at ih ⊢
+    rw [List.reverse_cons, List.foldl_append, List.foldl_cons, List.foldl_nil, ih, List.takeWhile_cons]
+    by_cases hc : (c == 92) = true
+    · simp only [hc, if_true, List.length_cons, Bool.true_and]
+      generalize (r.takeWhile (· == 92)).length = k
+      rcases Nat.mod_two_eq_zero_or_one k with h | h
+      · have h' : (k + 1) % 2 = 1 := by omega
+        simp [h, h']
+      · have h' : (k + 1) % 2 = 0 := by omega
+        simp [h, h']
+    · simp [hc]
+
+/-- the model's one-bit state is Go's `escapedAt` -/
+theorem escAfter_eq_escapedAt (s : Bytes) (i : Nat) : escAfter false (s.take i) = escapedAt s i := by
+  have := escAfter_rev (s.take i).reverse
+  rw [List.reverse_reverse] at this
+  exact this
+
+theorem litEnd_spec (q : UInt8) : ∀ (s : Bytes) (esc : Bool),
+    match litEnd q esc s with
+    | some n => s[n]? = some q ∧ escAfter esc (s.take n) = false ∧
+        ∀ i, i < n → ¬(s[i]? = some q ∧ escAfter esc (s.take i) = false)
+    | none => ∀ i, ¬(s[i]? = some q ∧ escAfter esc (s.take i) = false)
+  | [], esc => by simp [litEnd]
+  | c :: r, esc => by
+    have ih := litEnd_spec q r (c == 92 && !esc)
+    simp only [litEnd]
+    have hstep : ∀ i, escAfter esc ((c :: r).take (i + 1)) = escAfter (c == 92 && !esc) (r.take i) := by
+      intro i; simp [escAfter]
+    by_cases hc : (c == q && !esc) = true
+    · rw [if_pos hc]
+      simp only [Bool.and_eq_true, beq_iff_eq, Bool.not_eq_true'] at hc
+      simp [hc.1, hc.2, escAfter]
+    · rw [if_neg hc]
+      have h0 : ¬((c :: r)[0]? = some q ∧ escAfter esc ((c :: r).take 0) = false) := by
+        simp only [List.getElem?_cons_zero, Option.some.injEq, List.take_zero, escAfter, List.foldl_nil]
+        intro h; apply hc; simp [h.1, h.2]
+      cases hl : litEnd q (c == 92 && !esc) r with
+      | none =>
+        rw [hl] at ih
+        simp only [Option.map_none]
+        intro i
+        cases i with
+        | zero => exact h0
+        | succ j => rw [hstep, List.getElem?_cons_succ]; exact ih j
+      | some m =>
+        rw [hl] at ih
+        simp only [Option.map_some]
+        refine ⟨by rw [List.getElem?_cons_succ]; exact ih.1, by rw [hstep]; exact ih.2.1, ?_⟩
+        intro i hi
+        cases i with
+        | zero => exact h0
+        | succ j => rw [hstep, List.getElem?_cons_succ]; exact ih.2.2 j (by omega)
+
+/-- `litEnd` in the words of the repaired Go code: the first index that holds the delimiter and is not
+    `escapedAt`; `none` iff there is no such index. -/
+theorem C08_literal_end_is_first_quote_not_escapedAt (q : UInt8) (s : Bytes) :
+    match litEnd q false s with
+    | some n => s[n]? = some q ∧ escapedAt s n = false ∧ ∀ i, i < n → ¬(s[i]? = some q ∧ escapedAt s i = false)
+    | none => ∀ i, ¬(s[i]? = some q ∧ escapedAt s i = false) := by
+  have h := litEnd_spec q s false
+  simp only [escAfter_eq_escapedAt] at h
+  exact h
+
+/-- Writing a value `v` as a literal — a backslash in front of every backslash, every delimiter and whatever else
+    of the class `P` one likes to escape (the other quote, braces; not `n`, `r`, `t`) — and reading it back: the
+    literal ends exactly at its last byte however many backslashes `v` ends in (`'\\'`, `'a\\'`), the token carries
+    the spelling, `processEscapeSequences` of it is `v`, and lexing continues with whatever follows.
+    All byte strings `v`, both quote kinds. -/
+theorem C08_quote_after_escaped_backslash_closes (q : UInt8) (hq : q = 34 ∨ q = 39) (P : UInt8 → Bool)
+    (hP : EscClass q P) (v next : Bytes) :
+    lexExpr (q :: escapeWith P v ++ q :: next) = tk STRING (escapeWith P v) :: lexExpr next ∧
+    unescapeStr (escapeWith P v) = v := by
+  have h92 : (q == 92) = false := by rcases hq with rfl | rfl <;> decide
+  refine ⟨?_, unescape_escapeWith P hP.1 hP.2.2.1 hP.2.2.2.1 hP.2.2.2.2 v⟩
+  have h := C08_literal_ends_at_first_unescaped_quote q hq (escapeWith P v ++ q :: next)
+  rw [litEnd_escapeWith q P h92 hP.1 hP.2.1 next v] at h
+  simpa using h
+
+/-- every STRING token is an operand spelling of the string its escapes denote (so `C08_parse_spelling` accepts
+    literals with escapes as operands of every operator) -/
+theorem C08_escaped_literal_operand (s : Bytes) : SimpleOk (.str (unescapeStr s)) [tk STRING s] := by
+  apply simpleOk_single
+  intro rest _ f hf
+  obtain ⟨g, rfl⟩ : ∃ g, f = g + 1 := ⟨f - 1, by omega⟩
+  rw [parseSimple.eq_def]
+  simp [tk, isName, NAME, OPERATOR, STRING, pure, Except.pure]
+
+/-- bytes → tokens → tree: the literal written from `v` is the string constant `v` -/
+theorem C08_string_literal_round_trip (q : UInt8) (hq : q = 34 ∨ q = 39) (P : UInt8 → Bool)
+    (hP : EscClass q P) (v : Bytes) :
+    parseExpression (exprFuel (lexExpr (q :: escapeWith P v ++ [q]))) (lexExpr (q :: escapeWith P v ++ [q])) =
+      .ok (.str v, []) := by
+  have h := C08_quote_after_escaped_backslash_closes q hq P hP v []
+  have hnil : lexExpr [] = [] := by decide
+  rw [h.1, hnil]
+  have hs := C08_escaped_literal_operand (escapeWith P v)
+  rw [h.2] at hs
+  have := (C08_parse_spelling (rest := []) (Spells.simple (p := 1) hs) rfl).1
+  simpa using this
+
+/-- two literals around any binary operator, e.g. `'a\\' ~ 'b'` -/
+theorem C08_escaped_literals_around_operator (o : BinOp) (s1 s2 : Bytes) (rest : List Token) (hs : Stop rest = true) :
+    parseExpression (exprFuel ((([tk STRING s1] ++ opToks o) ++ [tk STRING s2]) ++ rest))
+        ((([tk STRING s1] ++ opToks o) ++ [tk STRING s2]) ++ rest) =
+      .ok (.binary o (.str (unescapeStr s1)) (.str (unescapeStr s2)), rest) :=
+  (C08_parse_spelling (Spells.bin (p := 1) (by cases o <;> decide) (.simple (C08_escaped_literal_operand s1))
+    (.simple (C08_escaped_literal_operand s2))) hs).1
+
+theorem C08_escape_classes :
+    EscClass 39 (fun c => c == 92 || c == 39) ∧ EscClass 34 (fun c => c == 92 || c == 34) ∧
+    EscClass 39 (fun c => c == 92 || c == 39 || c == 34) ∧ EscClass 34 (fun c => c == 92 || c == 39 || c == 34) ∧
+    EscClass 39 (fun c => c == 92 || c == 39 || c == 34 || c == 123 || c == 125) ∧
+    EscClass 34 (fun c => c == 92 || c == 39 || c == 34 || c == 123 || c == 125) := by
+  refine ⟨?_, ?_, ?_, ?_, ?_, ?_⟩ <;> (unfold EscClass; decide)
+
 section Examples
 
 private def i (n : Int) : Expr := .int n
@@ -624,6 +887,29 @@ example : renderDemo "{{ -ys[0][1] }}" xsV = some (b "-7") := by decide +kernel
 example : renderDemo "{{ -x|abs }}" xsV = some (b "4") := by decide +kernel                 -- unchanged: `(-x)|abs`
 example : renderDemo "{{ -xs[x - 3] * 2 }}|{{ -xs[1] < 0 ? 'neg' : 'pos' }}" xsV = some (b "-16|neg") := by decide +kernel
 example : renderDemo "{% if not xs[2] %}zero{% endif %}{% set n = -xs[0] %}{{ n }}" xsV = some (b "zero-3") := by decide +kernel
+-- string literals: a quote behind an escaped backslash ends the literal. On the lexer before the repair (escaped iff
+-- the previous byte is a backslash) the first three, the sixth to tenth were parse errors.
+example : renderDemo "{{ '\\\\' }}" = some [92] := by decide +kernel                       -- the template {{ '\\' }}: one backslash
+example : renderDemo "{{ 'a\\\\' }}" = some [97, 92] := by decide +kernel
+example : renderDemo "{{ \"\\\\\" }}" = some [92] := by decide +kernel
+example : renderDemo "{{ 'a\\'b' }}" = some (b "a'b") := by decide +kernel                -- unchanged: the quote is escaped
+example : renderDemo "{{ 'a\\\\\\'b' }}" = some [97, 92, 39, 98] := by decide +kernel        -- three backslashes: escaped again
+example : renderDemo "{{ '\\\\\\\\' }}" = some [92, 92] := by decide +kernel
+example : renderDemo "{{ 'a\\\\' ~ 'b' }}" = some [97, 92, 98] := by decide +kernel
+example : renderDemo "{% set v = '\\\\' %}{{ v }}" = some [92] := by decide +kernel
+example : renderDemo "{% macro m(p, q = '\\\\') %}{{ p }}{{ q }}{% endmacro %}{{ m(1) }}" = some [49, 92] := by decide +kernel
+example : renderDemo "{{ {'\\\\': 'x\\\\'}['\\\\'] }}|{{ ['\\\\', \"\\\\\"]|join('\\\\') }}" = some [120, 92, 124, 92, 92, 92] := by decide +kernel
+example : renderDemo "{{ 'a\\' }}" = none := by decide +kernel                              -- a lone backslash still escapes the quote
+example : renderDemo "{{ \\\\'a' }}" = some (b "a") ∧ renderDemo "{{ \\'a' }}" = some [] := by decide +kernel  -- backslashes outside a literal count too
+example : lexExpr (b "'a\\\\' ~ 'b'") = [tk STRING [97, 92, 92], tk OPERATOR [126], tk STRING [98]] := by decide +kernel
+example : litEnd 39 false (b "a\\\\' ~ 'b'") = some 3 ∧ litEnd 39 false (b "a\\'b' ~ 'c'") = some 4 ∧ litEnd 39 false (b "a\\") = none ∧
+    litEnd 39 false (b "a\\'") = none ∧ litEnd 34 false (b "a'\\\"\\\\\"") = some 6 := by decide +kernel
+example : escapedAt (b "a\\\\'") 3 = false ∧ escapedAt (b "a\\'") 2 = true ∧ escapedAt (b "\\\\\\'") 3 = true ∧ escapedAt (b "'") 0 = false := by
+  decide +kernel
+example : escapeBytes 39 [92] = [92, 92] ∧ escapeBytes 39 (b "a'b\\") = b "a\\'b\\\\" ∧ escapeBytes 34 (b "a'b") = b "a'b" ∧
+    escapeWith (fun c => c == 92 || c == 39 || c == 34 || c == 123 || c == 125) (b "{'}") = b "\\{\\'\\}" := by decide +kernel
+example : lexExpr (39 :: escapeBytes 39 [97, 92] ++ 39 :: b " ~ x") = tk STRING [97, 92, 92] :: lexExpr (b " ~ x") :=
+  (C08_quote_after_escaped_backslash_closes 39 (Or.inr rfl) _ C08_escape_classes.1 [97, 92] (b " ~ x")).1
 -- spacing: irregular but separating whitespace; fusing neighbours are rejected by `Separated`
 example : Separated (printMin ex1) [[], [], [32, 9], [32], [10], [], [], [32, 32]] = true := by decide +kernel
 example : spellToks (printMin ex1) [[], [], [32, 9], [32], [10], [], [], [32, 32]] = b "1+ \t2 *\n3-4  " := by decide +kernel
